@@ -19,7 +19,9 @@ import (
 	"github.com/lianxiangcloud/linkchain/consensus"
 	"github.com/lianxiangcloud/linkchain/libs/common"
 	"github.com/lianxiangcloud/linkchain/libs/crypto"
+	dbm "github.com/lianxiangcloud/linkchain/libs/db"
 	"github.com/lianxiangcloud/linkchain/libs/ser"
+	"github.com/lianxiangcloud/linkchain/libs/trie"
 	"github.com/lianxiangcloud/linkchain/mempool"
 	"github.com/lianxiangcloud/linkchain/state"
 	"github.com/lianxiangcloud/linkchain/types"
@@ -175,4 +177,57 @@ func TestReproNilLogEncodePanic(t *testing.T) {
 	bz, err := ser.EncodeToBytes(r)
 	t.Logf("NOT REPRODUCED: %x %v", bz, err)
 	_ = fmt.Sprint
+}
+
+// key: panic/libs/trie.compactToHex/slice-bounds
+// A trie node blob C2 80 80 (a 2-item list = short node whose key string is
+// empty). Expected: decode error (or a node). Actual before the fix in /repo
+// 34507ad: decodeNode -> decodeShort -> compactToHex(empty) slices base[2:]
+// of a 1-element slice: "slice bounds out of range [2:1]". Reachable through
+// trie.Sync.Process (state.NewStateSync), NewSync/AddSubTrie's read of the
+// local database and trie.VerifyProof. Fix (as upstream go-ethereum): return
+// early from compactToHex when len(compact) == 0.
+func TestReproTrieEmptyKeyPanic(t *testing.T) {
+	blob := []byte{0xC2, 0x80, 0x80}
+	defer func() {
+		if r := recover(); r != nil {
+			t.Logf("REPRODUCED: trie.Sync.Process(node %x) panicked: %v", blob, r)
+		}
+	}()
+	s := trie.NewSync(trieRoot, dbm.NewMemDB(), nil)
+	_, _, err := s.Process([]trie.SyncResult{{Hash: trieRoot, Data: blob}})
+	t.Logf("NOT REPRODUCED: err=%v", err)
+}
+
+// The two oracles of rawsplit.go / retain.go that no defect of the unchanged
+// tree reaches, demonstrated on the inputs they were built for (these PASS on
+// the unchanged tree and fail when the corresponding seeded change is applied).
+func TestRawSplitHugeSizes(t *testing.T) {
+	for _, in := range [][]byte{
+		{0xBF, 0xFF, 0xFF, 0xFF, 0xFF, 0xFF, 0xFF, 0xFF, 0xFF},
+		{0xFF, 0xFF, 0xFF, 0xFF, 0xFF, 0xFF, 0xFF, 0xFF, 0xF8, 0xAA, 0xBB},
+	} {
+		func() {
+			defer func() {
+				if r := recover(); r != nil {
+					t.Errorf("Split(%x) panicked: %v", in, r)
+				}
+			}()
+			if _, _, _, err := ser.Split(in); err == nil {
+				t.Errorf("Split(%x) accepted", in)
+			}
+			if it := refRead(in); it.v != refBad {
+				t.Errorf("reference reader accepts %x", in)
+			}
+		}()
+	}
+}
+
+func TestRetainedEncodingStable(t *testing.T) {
+	a := ser.MustEncodeToBytes(uint64(0xdeadbeef01))
+	snap := append([]byte{}, a...)
+	ser.MustEncodeToBytes(uint64(0x1122334455))
+	if !bytes.Equal(a, snap) {
+		t.Errorf("retained encoding changed: was %x now %x", snap, a)
+	}
 }
